@@ -459,3 +459,4 @@ LEVEL_NOTE = ("Trusted: Lean kernel, axioms <= {propext, Classical.choice, Quot.
               "correspondence to iterators.py as established by the tie (not proved), CPython. Generators are modelled as the lists "
               "they yield when exhausted without interleaved mutation; predicates are functions of node identity.")
 TECHNIQUE = "Lean 4 proof (structural/fuel induction: impl-shaped traversal = specification) + correspondence check against the real iterators"
+RULE = RULE + " Fifth session: a third of the plain trees are built from a user class with value equality (equal, distinct nodes in one tree); in binary preps a child is taken over through another node's left / right setter and taken back, with reads of both child tuples in between."
